@@ -1,7 +1,7 @@
 #!/bin/bash
 # Build the framework from files on disk only (offline): regenerate Gen/*.v from /repo,
 # full .vo build of the Coq development, extraction, OCaml driver.
-set -e
+set -e -o pipefail
 HERE="$(cd "$(dirname "$0")" && pwd)"
 cd "$HERE"
 mkdir -p build evidence/replays
